@@ -1,1 +1,198 @@
-//! oracle for gift — to be written from the specification
+//! GIFT-128, written from Banik, Pandey, Peyrin, Sasaki, Sim, Todo, "GIFT: A Small Present" (CHES 2017,
+//! ePrint 2017/622), section 2 -- the plain bit-level description, NOT the fixsliced / bitsliced one.
+//!
+//!   state  b_127 .. b_0, nibbles w_i = b_{4i+3} b_{4i+2} b_{4i+1} b_{4i};  key state k_7 || .. || k_0 (16-bit words)
+//!   SubCells:    w_i <- GS(w_i)
+//!   PermBits:    b_{P128(i)} <- b_i,  P128(i) = 4 floor(i/16) + 32 ((3 floor((i mod 16)/4) + (i mod 4)) mod 4) + (i mod 4)
+//!   AddRoundKey: U = k_5 || k_4, V = k_1 || k_0;  b_{4i+2} ^= u_i, b_{4i+1} ^= v_i (i = 0..31);
+//!                b_127 ^= 1;  b_23, b_19, b_15, b_11, b_7, b_3 ^= c_5, c_4, c_3, c_2, c_1, c_0
+//!   key update:  k_7 || k_6 || .. || k_0 <- (k_1 >>> 2) || (k_0 >>> 12) || k_7 || .. || k_2
+//!   constants:   (c_5 .. c_0) <- (c_4, c_3, c_2, c_1, c_0, c_5 ^ c_4 ^ 1), initialised to 0, updated before use
+//!   40 rounds.
+//! The S-box GS is data of the specification.  Bytes: most significant first (block byte 0 = b_127..b_120, key byte
+//! 0 = high byte of k_7), as in the designers' test vectors.
+
+pub const GS: [u8; 16] = [0x1, 0xa, 0x4, 0xc, 0x6, 0xf, 0x3, 0x9, 0x2, 0xd, 0xb, 0x7, 0x5, 0x0, 0x8, 0xe];
+pub const ROUNDS: usize = 40;
+
+pub fn gs_inv(y: u8) -> u8 {
+    let mut x = 0u8;
+    let mut i = 0u8;
+    while i < 16 {
+        if GS[i as usize] == y {
+            x = i;
+        }
+        i += 1;
+    }
+    x
+}
+
+pub fn p128(i: usize) -> usize {
+    4 * (i / 16) + 32 * ((3 * ((i % 16) / 4) + (i % 4)) % 4) + (i % 4)
+}
+
+pub fn sub_cells(s: u128) -> u128 {
+    let mut o = 0u128;
+    let mut i = 0;
+    while i < 32 {
+        let w = ((s >> (4 * i)) & 0xf) as usize;
+        o |= (GS[w] as u128) << (4 * i);
+        i += 1;
+    }
+    o
+}
+pub fn inv_sub_cells(s: u128) -> u128 {
+    let mut inv = [0u8; 16];
+    let mut i = 0;
+    while i < 16 {
+        inv[GS[i] as usize] = i as u8;
+        i += 1;
+    }
+    let mut o = 0u128;
+    i = 0;
+    while i < 32 {
+        let w = ((s >> (4 * i)) & 0xf) as usize;
+        o |= (inv[w] as u128) << (4 * i);
+        i += 1;
+    }
+    o
+}
+pub fn perm_bits(s: u128) -> u128 {
+    let mut o = 0u128;
+    let mut i = 0;
+    while i < 128 {
+        o |= ((s >> i) & 1) << p128(i);
+        i += 1;
+    }
+    o
+}
+pub fn inv_perm_bits(s: u128) -> u128 {
+    let mut o = 0u128;
+    let mut i = 0;
+    while i < 128 {
+        o |= ((s >> p128(i)) & 1) << i;
+        i += 1;
+    }
+    o
+}
+
+/// The 6-bit round constants c_5..c_0 of rounds 1..40.
+pub fn round_constants() -> [u8; ROUNDS] {
+    let mut rc = [0u8; ROUNDS];
+    let mut c = 0u8;
+    let mut r = 0;
+    while r < ROUNDS {
+        let fb = ((c >> 5) ^ (c >> 4) ^ 1) & 1;
+        c = ((c << 1) | fb) & 0x3f;
+        rc[r] = c;
+        r += 1;
+    }
+    rc
+}
+
+/// Key words k_7..k_0 from the 16 key bytes (byte 0 = high byte of k_7); returned as w[i] = k_i.
+pub fn key_words(key: &[u8; 16]) -> [u16; 8] {
+    let mut w = [0u16; 8];
+    let mut i = 0;
+    while i < 8 {
+        w[7 - i] = ((key[2 * i] as u16) << 8) | key[2 * i + 1] as u16;
+        i += 1;
+    }
+    w
+}
+pub fn key_update(k: &[u16; 8]) -> [u16; 8] {
+    [k[2], k[3], k[4], k[5], k[6], k[7], k[0].rotate_right(12), k[1].rotate_right(2)]
+}
+
+/// Round keys (U, V) of rounds 1..40.
+pub fn round_keys(key: &[u8; 16]) -> [(u32, u32); ROUNDS] {
+    let mut k = key_words(key);
+    let mut rk = [(0u32, 0u32); ROUNDS];
+    let mut r = 0;
+    while r < ROUNDS {
+        rk[r] = (((k[5] as u32) << 16) | k[4] as u32, ((k[1] as u32) << 16) | k[0] as u32);
+        k = key_update(&k);
+        r += 1;
+    }
+    rk
+}
+
+/// XOR mask of AddRoundKey (round key and round constant) on the 128-bit state.
+pub fn add_mask(u: u32, v: u32, c: u8) -> u128 {
+    let mut m = 1u128 << 127;
+    let mut i = 0;
+    while i < 32 {
+        m ^= (((u >> i) & 1) as u128) << (4 * i + 2);
+        m ^= (((v >> i) & 1) as u128) << (4 * i + 1);
+        i += 1;
+    }
+    i = 0;
+    while i < 6 {
+        m ^= (((c >> i) & 1) as u128) << (4 * i + 3);
+        i += 1;
+    }
+    m
+}
+
+pub fn round(s: u128, u: u32, v: u32, c: u8) -> u128 {
+    perm_bits(sub_cells(s)) ^ add_mask(u, v, c)
+}
+pub fn inv_round(s: u128, u: u32, v: u32, c: u8) -> u128 {
+    inv_sub_cells(inv_perm_bits(s ^ add_mask(u, v, c)))
+}
+
+/// Rounds `from..to` (0-based, to <= 40) on state `s`.
+pub fn rounds(mut s: u128, rk: &[(u32, u32); ROUNDS], from: usize, to: usize) -> u128 {
+    let rc = round_constants();
+    let mut r = from;
+    while r < to {
+        s = round(s, rk[r].0, rk[r].1, rc[r]);
+        r += 1;
+    }
+    s
+}
+pub fn inv_rounds(mut s: u128, rk: &[(u32, u32); ROUNDS], from: usize, to: usize) -> u128 {
+    let rc = round_constants();
+    let mut r = to;
+    while r > from {
+        r -= 1;
+        s = inv_round(s, rk[r].0, rk[r].1, rc[r]);
+    }
+    s
+}
+
+pub fn encrypt(key: &[u8; 16], block: &[u8; 16]) -> [u8; 16] {
+    rounds(u128::from_be_bytes(*block), &round_keys(key), 0, ROUNDS).to_be_bytes()
+}
+pub fn decrypt(key: &[u8; 16], block: &[u8; 16]) -> [u8; 16] {
+    inv_rounds(u128::from_be_bytes(*block), &round_keys(key), 0, ROUNDS).to_be_bytes()
+}
+
+/// The bitsliced view used by table-free implementations: slice j (j = 0..3) collects bit j of every nibble,
+/// slice_j bit i = b_{4i+j}.  (Pure re-indexing, used by harnesses to relate a packed state to the spec state.)
+pub fn bitslice(s: u128) -> [u32; 4] {
+    let mut o = [0u32; 4];
+    let mut i = 0;
+    while i < 32 {
+        let mut j = 0;
+        while j < 4 {
+            o[j] |= (((s >> (4 * i + j)) & 1) as u32) << i;
+            j += 1;
+        }
+        i += 1;
+    }
+    o
+}
+pub fn unbitslice(sl: &[u32; 4]) -> u128 {
+    let mut s = 0u128;
+    let mut i = 0;
+    while i < 32 {
+        let mut j = 0;
+        while j < 4 {
+            s |= (((sl[j] >> i) & 1) as u128) << (4 * i + j);
+            j += 1;
+        }
+        i += 1;
+    }
+    s
+}
